@@ -24,6 +24,7 @@ RULE = (
 ASSUMPTIONS = ["zip with unequal lengths raises by contract and is not generated", "the order in which items execute is free"]
 DECIDING = ["map_calls", "items_compared"]
 THOROUGH_SHARDS = 12
+REPLAY_BY_SEED = True  # histories are regenerated from the seed; see main.py
 
 
 class ItemBoom(Exception):
